@@ -45,9 +45,10 @@ ScenarioOf(n) == [front |-> Rec[n].front, back |-> Rec[n].back,
                   timing |-> Rec[n].timing]
 ReqsOf(n) == [r \in Reqs |-> IF r <= Len(Rec[n].reqs)
                               THEN [route |-> Rec[n].reqs[r].route, framing |-> Rec[n].reqs[r].framing,
-                                    fault |-> Rec[n].reqs[r].fault, at |-> Rec[n].reqs[r].at, pace |-> Rec[n].reqs[r].pace]
+                                    fault |-> Rec[n].reqs[r].fault, at |-> Rec[n].reqs[r].at, pace |-> Rec[n].reqs[r].pace,
+                                    interim |-> Rec[n].reqs[r].interim, lsid |-> Rec[n].reqs[r].lsid, gap |-> "none"]
                               \* a run with a single request: the second slot is never sent
-                              ELSE [route |-> "absent", framing |-> "cl", fault |-> "none", at |-> "none", pace |-> "fast"]]
+                              ELSE [Base EXCEPT !.route = "absent"]]
 
 Start(n) ==
   /\ sc' = ScenarioOf(n) /\ rq' = ReqsOf(n)
@@ -70,6 +71,9 @@ Start(n) ==
   /\ wait' = [r \in Reqs |-> 0]
   /\ elapsed' = [r \in Reqs |-> 0]
   /\ actor' = 0
+  /\ istate' = [r \in Reqs |-> "no"]
+  /\ bup' = ~(\E q \in Reqs : ReqsOf(n)[q].route = "a" /\ ReqsOf(n)[q].fault = "refuse")
+  /\ boff' = 0 /\ bfail' = FALSE /\ idle' = 0
   /\ run' = n
   /\ pos' = [o \in 1..MaxObs |-> 0]
 
@@ -94,6 +98,9 @@ TInit ==
   /\ wait = [r \in Reqs |-> 0]
   /\ elapsed = [r \in Reqs |-> 0]
   /\ actor = 0
+  /\ istate = [r \in Reqs |-> "no"]
+  /\ bup = ~(\E q \in Reqs : ReqsOf(1)[q].route = "a" /\ ReqsOf(1)[q].fault = "refuse")
+  /\ boff = 0 /\ bfail = FALSE /\ idle = 0
   /\ run = 1
   /\ pos = [o \in 1..MaxObs |-> 0]
   /\ total = 0
